@@ -38,13 +38,13 @@ PT_NOTE = ("Trusted: the harness's own arithmetic and reference formulas (harnes
 
 PROPS = {
     "C01": {"level": "exploration",
-            "technique": "runtime monitor: shadow energy ledger + per-step balance invariants on real Locomotive/Consist steps under an online adversarial demand driver and on walk() histories",
+            "technique": "runtime monitor: shadow energy ledger + per-step balance invariants on real Locomotive/Consist steps under an online adversarial demand driver and on walk() histories; aux-curtailment reference while braking; consist steps with engines commanded off",
             "level_text": "Every accepted step of hundreds of thousands of generated unit/consist runs is checked against all hand-off and ledger identities and every prefix against an independent running sum; assurance is 'held on every execution observed', which is what a deterministic numerical simulator with an unbounded input space admits for this technique.",
             "level_note": PT_NOTE,
             "floors": {"quick": {"distinct_nontrivial": 50, "steps.accepted": 20000, "consist_steps.accepted": 10000, "obs.energy_prefix": 100000},
                        "thorough": {"distinct_nontrivial": 2000, "steps.accepted": 1000000}}},
     "C08": {"level": "exploration",
-            "technique": "runtime monitor: pointwise second-law / monotonicity / engine-off invariants on component state after every accepted step (adversarial driver + PowerTrace.engine_on patterns through LocomotiveSimulation::walk)",
+            "technique": "runtime monitor: pointwise second-law / monotonicity / engine-off invariants on component state after every accepted step (adversarial driver + PowerTrace.engine_on patterns through LocomotiveSimulation::walk); consist-level cumulative counters monotone across mid-run fleet edits",
             "level_text": "Pointwise invariants evaluated after every accepted step across generated efficiency maps (values up to exactly 1.0), both traction directions, engine on/off patterns; held on all observed executions.",
             "level_note": PT_NOTE,
             "floors": {"quick": {"distinct_nontrivial": 50, "obs.regen_step": 1000, "obs.engine_off_step": 100},
@@ -68,19 +68,19 @@ PATH_NOTE = ("Trusted: the harness's reference models (harness/src/mon/path.rs: 
              "Assumed: generator family of DESIGN.md section 3, each network accepted by the crate's validation; positive speeds; |grade| <= 2.5 %.")
 PROPS.update({
     "C02": {"level": "exploration",
-            "technique": "runtime monitor with reference model: enforced step function from PathTpc::speed_points() vs reference min(train max, covering posted restrictions) built from the network, compared exactly at all breakpoints+midpoints, across extension schedules",
+            "technique": "runtime monitor with reference model: enforced step function from PathTpc::speed_points() vs reference min(train max, covering posted restrictions) built from the network, compared exactly at all breakpoints+midpoints, across extension schedules; train parameters also derived by the crate from make-ups with absent car types; networks also passed through a legacy-layout file first",
             "level_text": "For every generated route/train/extension schedule the pointwise claim enforced(x) <= posted(x) is decided exactly (both functions are piecewise constant; all breakpoints and midpoints are evaluated); held on all observed routes.",
             "level_note": PATH_NOTE,
             "floors": {"quick": {"distinct_nontrivial": 500, "obs.points_compared": 200000, "obs.routes": 3000},
                        "thorough": {"distinct_nontrivial": 50000, "obs.routes": 300000}}},
     "C13": {"level": "exploration",
-            "technique": "runtime monitor with reference model: equality of the enforced profile with the reference tightest-restriction function at all breakpoints+midpoints, plus canonical-form invariants on speed_points()",
+            "technique": "runtime monitor with reference model: equality of the enforced profile with the reference tightest-restriction function at all breakpoints+midpoints, plus canonical-form invariants on speed_points(); same make-up derived trains and legacy-file pass-through as C02",
             "level_text": "Same executions and reference as C02 with the stricter oracle enforced(x) == tightest(x) and canonical form; held on all observed routes.",
             "level_note": PATH_NOTE,
             "floors": {"quick": {"distinct_nontrivial": 500, "obs.points_compared": 200000, "obs.canonical_form": 5000},
                        "thorough": {"distinct_nontrivial": 50000, "obs.routes": 300000}}},
     "C06": {"level": "exploration",
-            "technique": "runtime monitor with reference model: PathTpc accessors vs an independent walk over the route's own elevation/heading/catenary points; bitwise PartialEq across all extension schedules; spliced non-contiguous routes must return Err",
+            "technique": "runtime monitor with reference model: PathTpc accessors vs an independent walk over the route's own elevation/heading/catenary points; bitwise PartialEq across all extension schedules; spliced non-contiguous routes must return Err; the crate's hinted lookup swept over all breakpoints/midpoints vs stateless evaluation; PathTpc::clear must keep geometry, counts and reported released counts",
             "level_text": "Geometry of every generated path is compared with the reference at all breakpoints and midpoints (piecewise-linear => exact up to rounding), every composition of extend calls (exhaustive for short routes) is compared bitwise, and non-contiguous routes are driven through extend; held on all observed routes.",
             "level_note": PATH_NOTE,
             "floors": {"quick": {"distinct_nontrivial": 300, "obs.elevation_points": 200000, "obs.schedule_equality": 5000, "obs.noncontiguous_rejected_with_err": 1000},
@@ -88,7 +88,7 @@ PROPS.update({
 })
 
 PROPS["C16"] = {"level": "fault_enumeration", "exhaustive": True,
-    "technique": "fault enumeration under a runtime monitor: every listed validation rule broken in isolation at every link of each generated valid network, through every load path (validate, from_json, from_yaml, from_file); oracle = error value for faults, Ok for valid networks, equality for the legacy layout; panics observed via catch_unwind + panic hook",
+    "technique": "fault enumeration under a runtime monitor: every listed validation rule broken in isolation at every link of each generated valid network, through every load path (validate, from_json, from_yaml, from_file); oracle = error value for faults, Ok for valid networks, equality for the legacy layout; text-level faults for references wider than the index type; panics observed via catch_unwind + panic hook",
     "level_text": "For each generated network the set of single-fault mutations (rule x link x load path) is enumerated completely; the verdict per fault does not depend on an independent validator (the injected fault is one the statement lists). Network shapes themselves are sampled, so the claim is exhaustive per network, exploratory across networks.",
     "level_note": "Trusted: the fault injector (harness/src/mon/netval.rs) really produces the fault it names and nothing else; serde_json/serde_yaml. Assumed: generator family of DESIGN.md section 3.",
     "floors": {"quick": {"distinct_nontrivial": 100, "obs.faults_injected": 20000, "obs.faults_rejected_with_error_value": 50000, "obs.legacy_layout_loads": 20, "obs.fault.coincident_switch_points": 20},
@@ -110,7 +110,7 @@ PROPS.update({
             "floors": {"quick": {"distinct_nontrivial": 100, "obs.rows": 100000, "obs.rows_front_rear_in_different_grade_pieces": 20000, "obs.backward_eval_calls": 20000},
                        "thorough": {"distinct_nontrivial": 5000, "obs.rows": 5000000}}},
     "C11": {"level": "exploration",
-            "technique": "runtime monitor: row-aligned comparison of train.history, loco_con.history and every loco history plus final totals and (annualised) getters",
+            "technique": "runtime monitor: row-aligned comparison of train.history, loco_con.history and every loco history plus final totals and (annualised) getters; vector-level (SpeedLimitTrainSimVec) getters vs per-member totals times each member's own annualization factor",
             "level_text": "Power and cumulative energies are compared across train, consist and unit level in every saved row, and trip-level getters against totals x the documented factor for simulation_days in {None,1,7,365}; held on all observed runs.",
             "level_note": TRAIN_NOTE + " Final totals are compared only for runs that ended Ok (a step that fails half-way legitimately leaves unit sums ahead of the consist).",
             "floors": {"quick": {"distinct_nontrivial": 40, "obs.rows": 100000, "obs.annualised_getters": 50, "obs.final_totals": 200},
@@ -122,7 +122,7 @@ PROPS.update({
             "floors": {"quick": {"distinct_nontrivial": 100, "obs.rows": 100000, "obs.steps_crossing_1_boundary": 500},
                        "thorough": {"distinct_nontrivial": 5000, "obs.rows": 5000000}}},
     "C14": {"level": "exploration",
-            "technique": "runtime monitor: SetSpeedTrainSim history vs its SpeedTrace (bitwise time/speed), inertia/resistance power identities, clip values checked against limits published in the consist history, shadow energy sum with trace dt; negative-speed traces must be rejected",
+            "technique": "runtime monitor: SetSpeedTrainSim history vs its SpeedTrace (bitwise time/speed), inertia/resistance power identities, clip values checked against limits published in the consist history, shadow energy sum with trace dt; negative-speed traces must be rejected; published dynamic-braking capability vs the sum of the units' drivetrain ratings",
             "level_text": "Every row of generated set-speed runs (irregular stamps, saturating and non-saturating accelerations) is checked; 15 % of traces carry a negative speed at a random index and must end with Err; held on all observed runs.",
             "level_note": TRAIN_NOTE + " The rate-limited clip bound is accepted with either the previous or the current step size (the code uses the previous one).",
             "floors": {"quick": {"distinct_nontrivial": 100, "obs.rows": 100000, "obs.clipped_steps": 5000, "obs.unclipped_steps": 20000, "obs.negative_speed_traces": 40, "obs.rolling_start_on_default_initial_state": 100},
